@@ -60,6 +60,10 @@ CHECKS = {
    text="The resultant lemma (partition of unity => nodal forces sum to the quadrature of the density) ties the clause to C06/C07 (z3). The point-load split is decided symbolically from the extracted source. Get_Elements_Nodes(exclusively=True) is enumerated exhaustively over every node subset of small meshes. Resultants, first moments, the 2-D thickness factor, stray nodes and the pressure resultant are run-time contracts of the real load API on gmsh-generated box meshes (boundary groups as generated, prism meshes with mixed TRI/QUAD boundary) against closed-form integrals, for constant, nodal-array and polynomial intensities.",
    note="Box domains with straight faces; intensities up to the rule's degree; one thickness; seeded random coefficients. gmsh is external. Beam Hermitian line loads not covered.",
    technique="contract-based verification: lemma over callee contracts + symbolic execution of extracted code + exhaustive bounded enumeration + run-time contracts on native runs"),
+ "C04": dict(level="proof", design="DESIGN.md 3/C04",
+   text="The elimination solver __Solver_1 is executed from the extracted source in a formal block algebra (abstract blocks of any size, the linear solver replaced by its contract): the returned vector holds the prescribed values on the constrained dofs and satisfies the free rows. The known/unknown split, the node->dof lookup, the incremental Dirichlet values of Newton iterations, the orphan-node diagonal and the library solver call sites are decided from the extracted source. The multiplier solver __Solver_2 is run from the source on exact small systems and the system it hands to the linear solver compared structurally with [[A, aC'],[aC, 0]]; a z3 lemma carries that to 'constraints exact'. Native solves (bounded, run-time contracts) cover overlapping / duplicated conditions, orphan nodes, every installed iterative back end, multi-point constraints, beam connections and the Newton path.",
+   note="Block model of sparse fancy indexing is trusted; iterative back ends are only compared on one problem at 1e-4; PETSc/pypardiso/MPI absent; lsq_linear not exercised.",
+   technique="contract-based verification: symbolic execution of extracted solver code in a formal block algebra against the linear-solver contract + z3 lemma + bounded structural comparison + run-time contracts on native solves"),
  "C16": dict(level="other", design="DESIGN.md 3/C16",
    text="Component extraction (names -> indices, Kelvin-Mandel factor removed) and the von Mises formula are decided symbolically from the extracted source. The energy identity Wdef = 1/2 u'Ku is a polynomial identity in a symbolic nodal state on exact patches (real B, wJ, element operator, scatter-add by C03's contract). Every advertised result name of the Elastic (2-D, 3-D, mixed groups), Thermal, Beam (2-D, 3-D), PhaseField, HyperElastic and InElastic simulations is exercised on arbitrary non-equilibrium states with run-time contracts tying named results to vector/tensor results, Svm, energies, node<->element conversion and reaction balance.",
    note="One mesh and one seeded random state per simulation type; beam internal forces and phase-field energies are only checked for availability; floats with 1e-10.",
